@@ -19,13 +19,15 @@ ASSUMPTIONS = ["'restores exactly the model' = every calculated attribute and ev
                "system built from scratch from the final inputs"]
 
 
-def h_recover(ctx, skeleton, edit, followup, args=None, twice=False, n=2, storage_fixed=None, small_base=False):
+def h_recover(ctx, skeleton, edit, followup, args=None, twice=False, n=2, storage_fixed=None, small_base=False, deleting=False):
     spec = M.SKELETONS[skeleton](n, **(args or {}))
     if storage_fixed is not None:
         spec["storages"]["st"]["fixed_nb_of_instances"] = storage_fixed
     sym = traffic_syms(spec)
     sym.update(collect_slots(spec, [edit, followup]))
     values = {"st.base_storage_need": 0.000001} if small_base else {}
+    if deleting:
+        values["jobdel.data_stored"] = -500     # a job that deletes data: lowering the initial need can make storage negative
     env0 = M.Env(ctx, symbolic=sym, values=values)
     objs = M.build(spec, env0)
     V.observe_system(ctx, objs, "0.")
@@ -84,7 +86,12 @@ def h_recover_link(ctx, case, followup, n=2):
     objs = M.build(spec, env0)
     V.observe_system(ctx, objs, "0.")
     before = S.snapshot(objs)
-    edits = {"append_job": (lambda: objs["step"].jobs.append(objs["heavy"]), lambda: setattr(objs["step"], "jobs", [objs["job"], objs["job2"]])),
+    def iadd_job():
+        cur = objs["step"].jobs
+        cur += [objs["heavy"]]
+        objs["step"].jobs = cur
+    edits = {"iadd_job": (iadd_job, lambda: setattr(objs["step"], "jobs", [objs["job"], objs["job2"]])),
+             "append_job": (lambda: objs["step"].jobs.append(objs["heavy"]), lambda: setattr(objs["step"], "jobs", [objs["job"], objs["job2"]])),
              "assign_jobs": (lambda: setattr(objs["step"], "jobs", [objs["heavy"], objs["job"], objs["job2"]]), lambda: setattr(objs["step"], "jobs", [objs["job"], objs["job2"]])),
              "append_step": (lambda: objs["uj"].uj_steps.append(objs["step_h"]), lambda: setattr(objs["uj"], "uj_steps", [objs["step"]]))}
     do, undo = edits[case]
@@ -118,6 +125,7 @@ def h_recover_link(ctx, case, followup, n=2):
 HARNESSES = {"recover": h_recover, "recover_link": h_recover_link}
 FIX = dict(obj="srv", param="fixed_nb_of_instances", k="num", range=dict(lo=0, lo_strict=True, hi=10 ** 6, nice=(1, 60)))
 STFIX = dict(obj="st", param="fixed_nb_of_instances", k="num", range=dict(lo=0, lo_strict=True, hi=10 ** 6, nice=(1, 60)))
+BASE = dict(obj="st", param="base_storage_need", k="num", range=dict(lo=0, hi=10, nice=(0, 0.001)))
 NEGSTORE = dict(obj="job", param="data_stored", k="num", range=dict(lo=-10 ** 9, hi=10 ** 9, nice=(-10 ** 6, 10 ** 6)))
 
 
@@ -136,6 +144,9 @@ def plan(tier, seed):
          ("recover", dict(skeleton="T1", edit=num("srv", "base_ram_consumption"), followup=num("srv", "base_ram_consumption"), twice=True)),
          ("recover", dict(skeleton="T5", args=T5f, edit=FIX, followup=num("srv", "ram"), twice=True)),
          ("recover_link", dict(case="append_job", followup=num("job", "data_transferred"))),
+         ("recover_link", dict(case="iadd_job", followup=num("job2", "data_transferred"))),
+         ("recover", dict(skeleton="T7", args={"offset_hours": 0}, deleting=True, edit=BASE, followup=num("job", "data_transferred"))),
+         ("recover", dict(skeleton="T7", args={"offset_hours": 1}, deleting=True, edit=BASE, followup=num("dev", "power"), twice=True)),
          ("recover_link", dict(case="assign_jobs", followup=num("job2", "ram_needed"))),
          ("recover_link", dict(case="append_step", followup=num("dev", "power")))]
     if tier == "thorough":
